@@ -573,10 +573,10 @@ def oracle_last_wins(ctx, classes, all_hows):
             ref_obj = make_obj(cls)
             apply_set(ref_obj.style, p, v2, ("attr", 0))
             ref = canon(ref_obj.style.as_dict())
-            if not same(tget(ref, p), canon(v2)):
+            if not same(leaf_value(ref_obj.style, p), canon(v2)):
                 ctx.impl_fail(f"assignment/{alias_trigger(st, p, stname)}",
                               f"{cls}: attribute assignment of {'.'.join(p)}={v2!r} on a fresh style reads back "
-                              f"{tget(ref, p)!r}", {"kind": "last-wins", "cls": cls, "p": list(p), "v1": None,
+                              f"{leaf_value(ref_obj.style, p)!r}", {"kind": "last-wins", "cls": cls, "p": list(p), "v1": None,
                                                     "v2": v2, "how1": None, "how2": ["attr", 0]})
                 continue
             hows = how_list(p, all_hows)
@@ -616,31 +616,59 @@ def check_last_wins(cls, p, v1, v2, h1, h2, ref=None):
     return None
 
 
-def resolved_style(obj, show_kwargs):
+def resolved_style(obj, show_kwargs, container="none"):
+    """the style object that the display code resolves for obj when show(<obj or the collection holding it>,
+    **show_kwargs) is called (display.py:92-93 + get_flatten_objects_properties_recursive)"""
     kwargs = copy.deepcopy(show_kwargs)
     style_kwargs = {k: v for k, v in kwargs.items() if k.startswith("style")}
     style_kwargs = linearize_dict(style_kwargs, separator="_")
+    top = obj
+    if container == "collection":
+        top = magpy.Collection(obj)
+    elif container == "nested":
+        top = magpy.Collection(magpy.Sensor(), magpy.Collection(obj))
     flat = get_flatten_objects_properties_recursive(
-        obj, style_kwargs=style_kwargs, colorsequence=magpy.defaults.display.colorsequence)
-    return canon(flat[obj]["style"].as_dict())
+        top, style_kwargs=style_kwargs, colorsequence=magpy.defaults.display.colorsequence)
+    return flat[obj]["style"]
 
 
-def check_precedence(cls, p, vals, present, kwhow, objhow, fam):
-    """vals = (kw, obj, fam, base) values; present = 4 booleans; returns None or (leaf, what)"""
+def leaf_value(style, p):
+    """getattr along the path (an alias property reads its target), canonical"""
+    return canon(getp(style, p))
+
+
+def spec_families(cls, p):
+    """families of the class that have a default for this leaf, most generic first (subclass order)"""
+    dst = sub_struct(G()["defaults_schema"], ("display", "style"))
+    fam_structs = dict(dst[5])
+    order = dict(G()["family_spec"])[cls]
+    return [f for f in order if f in fam_structs and any(l[0] == tuple(p) for l in leaves(fam_structs[f]))]
+
+
+PRESENT_NAMES = ("show-kwarg", "object", "own-family-default", "generic-family-default", "base-default")
+
+
+def check_precedence(cls, p, vals, present, kwhow, objhow, container="none"):
+    """vals = (kw, obj, own family, generic family, base) values; present = 5 booleans.
+    returns None or (leaf, what, got)"""
     p = tuple(p)
     fresh_defaults()
     try:
         dstyle = magpy.defaults.display.style
-        st = class_struct(cls)
         dst = sub_struct(G()["defaults_schema"], ("display", "style"))
         fam_structs = dict(dst[5])
         in_base = any(l[0] == p for l in leaves(fam_structs["base"]))
-        fams = [f for f in class_families(cls) if f in fam_structs and any(l[0] == p for l in leaves(fam_structs[f]))]
-        # every default source of this leaf: absent unless chosen
+        fams = spec_families(cls, p)
+        own = fams[-1] if fams else None
+        # every default source of this leaf: absent (None) unless chosen
         for f in fams:
-            apply_set(getattr(dstyle, f), p, vals[2] if (present[2] and f == fam) else None, ("attr", 0))
+            if f == own:
+                v = vals[2] if present[2] else None
+            else:
+                v = vals[3] if present[3] else None
+            apply_set(getattr(dstyle, f), p, v, ("attr", 0))
         if in_base:
-            apply_set(dstyle.base, p, vals[3] if present[3] else None, ("attr", 0))
+            apply_set(dstyle.base, p, vals[4] if present[4] else None, ("attr", 0))
         o = make_obj(cls)
         if present[1]:
             apply_set(o.style, p, vals[1], tuple(objhow))
@@ -651,29 +679,29 @@ def check_precedence(cls, p, vals, present, kwhow, objhow, fam):
             else:
                 kw["style"] = nest(p, vals[0])
         before = canon(o.style.as_dict())
+        own_value = leaf_value(o.style, p)
         if present[0] and p[0] not in show_keys():
-            # not a style argument of show(): must be rejected as an invalid name
-            try:
-                resolved_style(o, kw)
-            except ValueError:
-                return None
-            return p, f"show(style_{'_'.join(p)}=..) is not an available style argument but was accepted"
-        res = resolved_style(o, kw)
+            # not a style argument that show() knows: handled by the show-label oracle
+            return None
+        res = resolved_style(o, kw, container)
         after = canon(o.style.as_dict())
         # sources in order of precedence; the object's own value is what its style holds (a constructor
         # default of the style class counts as the object's own value)
-        cand = [vals[0] if present[0] else None, tget(before, p),
-                vals[2] if present[2] and fam in fams else None, vals[3] if present[3] and in_base else None]
+        cand = [vals[0] if present[0] else None, own_value,
+                vals[2] if present[2] and own else None,
+                vals[3] if present[3] and len(fams) > 1 else None,
+                vals[4] if present[4] and in_base else None]
         expected = next((c for c in cand if c is not None), None)
-        got = tget(res, p)
+        got = leaf_value(res, p)
         if not same(after, before):
-            return p, "resolution modified the object's own style"
+            return p, "resolution modified the object's own style", got
         if expected is None and p in (("label",), ("color",)):
-            return None            # filled in by the display code (class name / colour cycle)
+            return None            # filled in by the display code (class name / colour cycle / parent colour)
         if not same(got, canon(expected)):
-            srcs = [n for n, ok in zip(("show-kwarg", "object", "family-default", "base-default"), present) if ok]
-            return p, (f"{'.'.join(p)} resolved to {got!r}, expected {expected!r} "
-                       f"(sources given: {srcs}, values kw/obj/family/base = {list(vals)!r})")
+            srcs = [n for n, ok in zip(PRESENT_NAMES, present) if ok]
+            return p, (f"{'.'.join(p)} resolved to {got!r}, expected {expected!r} (sources given: {srcs}, "
+                       f"values kw/obj/own-family/generic-family/base = {list(vals)!r}, families {fams}, "
+                       f"shown {'directly' if container == 'none' else 'inside a ' + container})"), got
         return None
     finally:
         fresh_defaults()
@@ -684,38 +712,116 @@ def show_keys():
     return {k for fam in G()["DEFAULTS"]["display"]["style"].values() for k in fam}
 
 
+def precedence_trigger(st, stname, cls, p, vals, present, kwhow, objhow, container, got):
+    """trigger of a precedence failure, from re-runs of the (already minimal) case"""
+    if container != "none":
+        try:
+            if check_precedence(cls, p, vals, present, kwhow, objhow, "none") is None:
+                return "collection-child"
+        except Exception:   # pylint: disable=broad-except
+            pass
+    if present[2] and present[3] and not present[0] and not present[1] and same(got, canon(vals[3])):
+        return "family-order:" + stname
+    return alias_trigger(st, p, stname)
+
+
 def oracle_precedence(ctx, classes, full):
     rng = ctx.rng
     for cls in classes:
         st = class_struct(cls)
         stname = st[1]
-        dst = sub_struct(G()["defaults_schema"], ("display", "style"))
-        fam_structs = dict(dst[5])
         for p, kind, alias in leaves(st):
             vals = fixed_points(kind)
-            if len(vals) < 2 or kind[0] in ("KBoolStrict", "KData"):
+            if len(vals) < 2 or kind[0] in ("KBoolStrict", "KData") or alias is not None:
                 continue
-            vals = (vals * 4)[:4] if len(vals) < 4 else rng.sample(vals, 4)
-            fams = [f for f in class_families(cls) if f in fam_structs
-                    and any(l[0] == p for l in leaves(fam_structs[f]))]
-            combos = [tuple(bool(m >> i & 1) for i in range(4)) for m in range(16)]
+            # neighbours in the precedence order get different values
+            vals = [vals[i % len(vals)] for i in range(5)] if len(vals) < 5 else rng.sample(vals, 5)
+            fams = spec_families(cls, p)
+            combos = [tuple(bool(m >> i & 1) for i in range(5)) for m in range(32)]
+            if len(fams) < 2:
+                combos = [c for c in combos if not c[3]]
+            forced = [(True, True, False, False, False), (False, False, True, True, False)]
             if not full:
-                combos = [c for c in combos if rng.random() < 0.12 or c == (True, True, False, False)]
+                combos = [c for c in combos if rng.random() < 0.1 or (c in forced and (not c[3] or len(fams) > 1))]
             for present in combos:
-                fam = rng.choice(fams) if fams else None
                 kwhow = rng.choice(["under", "nested"])
                 objhow = rng.choice(how_list(p, False))
+                container = "none" if cls in ("MagpyMarkers",) else rng.choice(["none", "collection", "nested"])
                 try:
-                    res = check_precedence(cls, p, vals, present, kwhow, objhow, fam)
+                    res = check_precedence(cls, p, vals, present, kwhow, objhow, container)
                 except Exception as e:   # pylint: disable=broad-except
-                    res = (p, f"resolution raised {type(e).__name__}: {e}")
-                ctx.case(("prec", cls, p, present), True)
+                    res = (p, f"resolution raised {type(e).__name__}: {e}", None)
+                ctx.case(("prec", cls, p, present, container), True)
                 ctx.bump("precedence:" + "".join("1" if x else "0" for x in present))
+                ctx.bump("precedence-shown:" + container)
                 if res is not None:
-                    leaf, what = res
-                    ctx.impl_fail(f"precedence/{alias_trigger(st, leaf, stname)}", f"{cls}: " + what,
+                    leaf, what, got = res
+                    trig = precedence_trigger(st, stname, cls, p, vals, present, kwhow, objhow, container, got)
+                    ctx.impl_fail(f"precedence/{trig}", f"{cls}: " + what,
                                   {"kind": "precedence", "cls": cls, "p": list(p), "vals": list(vals),
-                                   "present": list(present), "kwhow": kwhow, "objhow": list(objhow), "fam": fam})
+                                   "present": list(present), "kwhow": kwhow, "objhow": list(objhow),
+                                   "container": container})
+
+
+def check_show_label(cls, v="lbl"):
+    """`label` is a style leaf of every object and a valid style_ keyword of every constructor: a value given
+    in the show() call must be the effective one (the property's first clause) - not rejected as invalid"""
+    o = make_obj(cls)
+    try:
+        res = resolved_style(o, {"style_label": v})
+    except Exception as e:   # pylint: disable=broad-except
+        return f"show({cls}, style_label={v!r}) raised {type(e).__name__}: {str(e).splitlines()[0][:120]}"
+    got = leaf_value(res, ("label",))
+    return None if same(got, v) else f"show({cls}, style_label={v!r}) resolved label {got!r}"
+
+
+def check_assign_instance(cls, p, v):
+    """obj.style = <style instance>: attribute assignment of a whole style; it must take effect (the last
+    assignment wins) or be rejected - and afterwards the two styles must be independent"""
+    p = tuple(p)
+    src = make_obj(cls)
+    apply_set(src.style, p, v, ("attr", 0))
+    want = canon(src.style.as_dict())
+    o = make_obj(cls)
+    try:
+        o.style = src.style
+    except Exception:   # pylint: disable=broad-except
+        return None                    # rejected: allowed
+    got = canon(o.style.as_dict())
+    if not same(got, want):
+        leaf = tree_diff(got, want)[0]
+        return ("last-wins/style-instance-ignored",
+                f"{cls}: obj.style = <{type(src.style).__name__} with {'.'.join(p)}={v!r}> was accepted but "
+                f"{'.'.join(leaf)} is {tget(got, leaf)!r}")
+    o.style.label = "changed-after"
+    if not same(canon(src.style.as_dict()), want):
+        return ("independent/style-instance-shared", f"{cls}: obj.style = other.style shares the style object")
+    return None
+
+
+def oracle_extra(ctx, classes, per_class):
+    rng = ctx.rng
+    for cls in classes:
+        res = check_show_label(cls)
+        ctx.case(("show-label", cls), True)
+        ctx.bump("show-label")
+        if res is not None:
+            ctx.impl_fail("precedence/show-rejects:label", res, {"kind": "show-label", "cls": cls})
+        if cls == "MagpyMarkers":
+            continue
+        st = class_struct(cls)
+        ls = [l for l in leaves(st) if fixed_points(l[1]) and l[0] != ("label",)]
+        for _ in range(per_class):
+            p, kind, _ = rng.choice(ls)
+            v = rng.choice(fixed_points(kind))
+            try:
+                res = check_assign_instance(cls, p, v)
+            except Exception as e:   # pylint: disable=broad-except
+                res = ("last-wins/style-instance-raises", f"{cls}: {type(e).__name__}: {e}")
+            ctx.case(("assign-instance", cls, p), True)
+            ctx.bump("assign-instance")
+            if res is not None:
+                ctx.impl_fail(res[0], res[1], {"kind": "assign-instance", "cls": cls, "p": list(p), "v": v})
 
 
 def in_defaults_literal(p):
@@ -1133,6 +1239,7 @@ def run(ctx):
     ctx.log("independence done")
     run_guarded(ctx, lambda: oracle_reject(ctx, classes if big else pick_classes(ctx, classes), big),
                 "C20 rejection oracle")
+    run_guarded(ctx, lambda: oracle_extra(ctx, classes, 4 if big else 1), "C20 show-label / style-instance oracle")
 
 
 def pick_classes(ctx, classes):
@@ -1150,7 +1257,8 @@ def replay(ctx, obj):
     if k == "last-wins":
         res = check_last_wins(rp["cls"], rp["p"], rp["v1"], rp["v2"], rp["how1"], rp["how2"])
     elif k == "precedence":
-        res = check_precedence(rp["cls"], rp["p"], rp["vals"], rp["present"], rp["kwhow"], rp["objhow"], rp["fam"])
+        res = check_precedence(rp["cls"], rp["p"], rp["vals"], rp["present"], rp["kwhow"], rp["objhow"],
+                               rp.get("container", "none"))
     elif k == "reset":
         res = check_reset(rp["p"], rp["v"], rp["how"])
     elif k == "independent":
@@ -1159,6 +1267,10 @@ def replay(ctx, obj):
         res = check_reject(rp["cls"], rp["p"], rp["v"], rp["how"], rp["bad_name"])
     elif k == "ctor":
         res = check_ctor(rp["cls"], rp["p"], rp["v"], rp["mode"])
+    elif k == "show-label":
+        res = check_show_label(rp["cls"])
+    elif k == "assign-instance":
+        res = check_assign_instance(rp["cls"], rp["p"], rp["v"])
     elif k == "ctor-history":
         try:
             make_obj(rp["cls"], rp["style"], rp["kwargs"])
